@@ -1,17 +1,102 @@
 import EpdVerif.Drivers.Dsl
 import EpdVerif.Gen.Epd4in2
-/-! model of `src/epd4in2/mod.rs` (STUB: programs not yet transcribed) -/
+/-! model of `src/epd4in2/mod.rs` -/
 namespace EpdVerif.Drivers.Epd4in2
 open EpdVerif
 open EpdVerif.Gen.Epd4in2
 
-def prog (_f : Feat) (_d : DState) : Op → Option (List Act)
+def W : Act := .wait IS_BUSY_LOW
+
+def sendResolution : List Act :=
+  [.cmd Command.ResolutionSetting, .data [shr8 WIDTH 8], .data [u8 WIDTH],
+   .data [shr8 HEIGHT 8], .data [u8 HEIGHT]]
+
+def setLutHelper (vcom ww bw wb bb : Bytes) : List Act :=
+  [W] ++
+  cmdData Command.LutForVcom vcom ++
+  cmdData Command.LutWhiteToWhite ww ++
+  cmdData Command.LutBlackToWhite bw ++
+  cmdData Command.LutWhiteToBlack wb ++
+  cmdData Command.LutBlackToBlack bb
+
+def setLut (d : DState) (r : Option Refresh) : List Act :=
+  (match r with | some m => [Act.upd (fun d => { d with refresh := m })] | none => []) ++
+  (match r.getD d.refresh with
+   | .full => setLutHelper LUT_VCOM0 LUT_WW LUT_BW LUT_WB LUT_BB
+   | .quick => setLutHelper LUT_VCOM0_QUICK LUT_WW_QUICK LUT_BW_QUICK LUT_WB_QUICK LUT_BB_QUICK)
+
+def init (d : DState) : List Act :=
+  [.reset 10000 10000] ++
+  cmdData Command.PowerSetting [0x03, 0x00, 0x2b, 0x2b, 0xff] ++
+  cmdData Command.BoosterSoftStart [0x17, 0x17, 0x17] ++
+  [.cmd Command.PowerOn, .delayUs 5000, W] ++
+  cmdData Command.PanelSetting [0x3F] ++
+  cmdData Command.PllControl [0x3A] ++
+  sendResolution ++
+  cmdData Command.VcmDcSetting [0x12] ++
+  cmdData Command.VcomAndDataIntervalSetting [0x97] ++
+  setLut d none ++ [W]
+
+/-- `shift_display` (and the identical inline code of `update_partial_frame`): nine single-byte
+    `data` calls; `tmp + width - 1` and `y + height - 1` are u32 expressions evaluated left to
+    right, so they underflow (panic in the dev profile) exactly when the sum is 0 -/
+def shiftDisplay (x y w h : Nat) : List Act :=
+  let tmp := x &&& 0xf8
+  let tmp2 := tmp + w - 1
+  [.data [shr8 x 8], .data [u8 tmp]] ++
+  assertA (tmp + w ≥ 1) ++
+  [.data [shr8 tmp2 8], .data [u8 (tmp2 ||| 0x07)],
+   .data [shr8 y 8], .data [u8 y]] ++
+  assertA (y + h ≥ 1) ++
+  [.data [shr8 (y + h - 1) 8], .data [u8 (y + h - 1)], .data [0x01]]
+
+def updateFrame (d : DState) (b : Bytes) : List Act :=
+  [W, .cmd Command.DataStartTransmission1, .rep (byteValue d.bg) (WIDTH / 8 * HEIGHT)] ++
+  cmdData Command.DataStartTransmission2 b
+
+def displayFrame : List Act := [W, .cmd Command.DisplayRefresh]
+
+def updateNewFrame (b : Bytes) : List Act := [W, .cmd Command.DataStartTransmission2, .data b]
+
+def prog (_f : Feat) (d : DState) : Op → Option (List Act)
+  | .new => some (init d)
+  | .wake => some (init d)
+  | .sleep => some ([W] ++ cmdData Command.VcomAndDataIntervalSetting [0x17] ++
+      [.cmd Command.VcmDcSetting, .cmd Command.PanelSetting, .cmd Command.PowerSetting] ++
+      dataEach [0x00, 0x00, 0x00, 0x00] ++
+      [.cmd Command.PowerOff, W] ++ cmdData Command.DeepSleep [0xA5])
+  | .upd b => some (updateFrame d b)
+  | .part b x y w h => some ([W, .cmd Command.PartialIn, .cmd Command.PartialWindow] ++
+      shiftDisplay x y w h ++
+      [.cmd Command.DataStartTransmission2, .data b, .cmd Command.PartialOut])
+  | .disp => some displayFrame
+  | .updisp b => some (updateFrame d b ++ [.cmd Command.DisplayRefresh])
+  | .clear => some ([W] ++ sendResolution ++
+      [.cmd Command.DataStartTransmission1, .rep (byteValue d.bg) (WIDTH / 8 * HEIGHT),
+       .cmd Command.DataStartTransmission2, .rep (byteValue d.bg) (WIDTH / 8 * HEIGHT)])
+  | .bg c => some [.upd (fun d => { d with bg := c })]
+  | .lut r => some (setLut d r)
+  | .wait => some [W]
+  | .old b => some [W, .cmd Command.DataStartTransmission1, .data b]
+  | .newf b => some (updateNewFrame b)
+  | .dispnew => some displayFrame
+  | .updispnew b => some (updateNewFrame b ++ displayFrame)
+  | .pold b x y w h => some ([W, .cmd Command.PartialIn, .cmd Command.PartialWindow] ++
+      shiftDisplay x y w h ++ [.cmd Command.DataStartTransmission1, .data b])
+  | .pnew b x y w h => some ([W] ++ shiftDisplay x y w h ++
+      [.cmd Command.DataStartTransmission2, .data b, .cmd Command.PartialOut])
+  | .pclear x y w h => some ([W] ++ sendResolution ++
+      [.cmd Command.PartialIn, .cmd Command.PartialWindow] ++
+      shiftDisplay x y w h ++
+      [.cmd Command.DataStartTransmission1, .rep (byteValue d.bg) (w / 8 * h),
+       .cmd Command.DataStartTransmission2, .rep (byteValue d.bg) (w / 8 * h),
+       .cmd Command.PartialOut])
   | _ => none
 
 def panel (f : Feat) : Panel :=
   { name := "epd4in2", width := WIDTH, height := HEIGHT, single := SINGLE_BYTE_WRITE,
     busyLow := IS_BUSY_LOW, family := .uc, colors := 2,
-    init := { bg := DEFAULT_BACKGROUND_COLOR },
+    init := { bg := DEFAULT_BACKGROUND_COLOR, refresh := .full },
     prog := prog f,
     ctrl := .uc (Uc.por WIDTH HEIGHT 1 9 false) }
 
